@@ -312,6 +312,18 @@ def run_shard(ctx):
             one_input(ctx, budget, sc, 'collision', errors)
             for j in range(ctx.pick(3, 30)):
                 one_input(ctx, budget, mutate(rng, sc), 'collision-mutation', errors)
+        # 3c. statements with several items before the '=' (targets, keywords with an index, calls, literals), exhaustively
+        ITEMS = ['Y', 'if[0]', 'in[-1]', 'is', 'not', '{a}', '<e>', 'exp', 'np.log', '`x`', "X['a']", '1', 'Z[1]', 'else']
+        RHS = ['1, 2', 'X', 'if[0]', '(1, 2, 3)', '']
+        for k2, combo in enumerate(itertools.chain(itertools.product(ITEMS, repeat=2), itertools.product(ITEMS, repeat=3))):
+            if len(combo) == 3 and ctx.quick and k2 % 7:
+                continue
+            idx += 1
+            if not ctx.mine(idx):
+                continue
+            for sep in (', ', ' '):
+                for rhs in (RHS if len(combo) == 2 else RHS[:2]):
+                    one_input(ctx, budget, sep.join(combo) + ' = ' + rhs, 'lhs-list', errors)
         # 4. mutation fuzzing of valid scripts
         rp = gen.RandomPrograms(rng, max_depth=3, max_eqs=4, max_names=6, big_offsets=True, underscore_rate=0.05, funcvar_rate=0.05, conflict_rate=0.1)
         for i in range(ctx.pick(300, 18000)):
